@@ -596,17 +596,24 @@ Lemma region_index_split a : simple_area a -> forall regs i idx,
   exists A B, regs = A ++ B /\ idx = (i + length A)%nat /\
               (forall x, In x A -> ae x <= as_ a) /\ (forall y, In y B -> ae a <= as_ y).
 Proof.
-  intros Ha. induction regs as [|x r IH]; intros i idx Hsim Hrs H.
-  - cbn in H. injection H as <-. exists [], []. cbn [length]. repeat split; try lia; intros ? [].
-  - cbn [region_index] in H. destruct (overlap (aloc a) (aloc x)) eqn:Ho; [discriminate|].
+  intros Ha regs i idx Hsim Hrs H. unfold region_index in H.
+  destruct (existsb (fun x => overlap (aloc a) (aloc x)) regs) eqn:Hex; [discriminate|]. injection H as <-.
+  assert (Hno : forall x, In x regs -> overlap (aloc a) (aloc x) = false).
+  { intros x Hx. destruct (overlap (aloc a) (aloc x)) eqn:Ho; [|reflexivity].
+    assert (existsb (fun x => overlap (aloc a) (aloc x)) regs = true) by (apply existsb_exists; exists x; split; assumption).
+    congruence. }
+  clear Hex. revert i Hsim Hrs Hno. induction regs as [|x r IH]; intros i Hsim Hrs Hno.
+  - exists [], []. cbn [region_pos length app]. repeat split; try lia; intros ? [].
+  - cbn [region_pos]. pose proof (Hno x (or_introl eq_refl)) as Ho.
     assert (Hx : simple_area x) by (apply Hsim; now left).
     destruct (region_step a x Ha Hx Ho) as [Ht Hf]. destruct Hrs as [Hxr Hrs].
     destruct (region_lt_region a x) eqn:Hlt.
-    + injection H as <-. exists [], (x :: r). cbn [length app]. repeat split; try lia; [intros ? []|].
+    + exists [], (x :: r). cbn [length app]. repeat split; try lia; [intros ? []|].
       specialize (Ht eq_refl). intros y [<-|Hy]; [exact Ht|].
       specialize (Hxr y Hy). destruct Hx as (px & Ex & Hpx). destruct (area_bounds x px Ex). lia.
-    + destruct (IH (S i) idx) as (A & B & E & Ei & HA & HB); [intros r0 Hr0; apply Hsim; now right|exact Hrs|exact H|].
-      exists (x :: A), B. cbn [length app]. rewrite E. repeat split; [lia| |exact HB].
+    + destruct (IH (S i)) as (A & B & E & Ei & HA & HB);
+        [intros r0 Hr0; apply Hsim; now right|exact Hrs|intros y Hy; apply Hno; now right|].
+      exists (x :: A), B. cbn [length app]. rewrite Ei. rewrite E at 1. repeat split; [lia| |exact HB].
       intros y [<-|Hy]; [now apply Hf|now apply HA].
 Qed.
 
